@@ -106,6 +106,9 @@ V("bc-solved-ignores-queue", "break", ["C01", "C08"], BC,
 V("bc-dispatch-index", "break", ["C15"], BC,
   "COMPUTE_DOMAINS_FCTS[algorithms[prop_idx]]", "COMPUTE_DOMAINS_FCTS[prop_idx]",
   "interpreted dispatch indexes the registry with the constraint index", "bound_consistency_algorithm")
+V("bc-clears-own-flag", "break", ["C01", "C08", "C13"], BC,
+  "        if not shr_domains_changes:\n", "        triggered_propagators[prop_idx] = False\n        if not shr_domains_changes:\n",
+  "the loop clears the flag of the constraint it just ran after its write-back (self-requeue discarded)", "bound_consistency_algorithm")
 V("bc-neutral-or-assign", "neutral", ["C01", "C04", "C08", "C17"], BC,
   "                events |= EVENT_MASK_MIN\n", "                events = events | EVENT_MASK_MIN\n", "|= written as = |")
 V("bc-neutral-mirrored-guard", "neutral", ["C01", "C04", "C08"], BC,
@@ -377,6 +380,35 @@ V("mp-no-raise-on-dead", "break", ["C18"], MP,
   "dead worker detected but the loop goes on forever", "MultiprocessingSolver")
 V("mp-finished-not-recorded", "break", ["C11"], MP, None, None, "a worker that completed is not recorded as finished: later reported as dead", "solve", within="    def solve(self)",
   edits=[{"old": "                finished[proc_idx] = True\n", "new": ""}])
+V("mp-join-in-finally", "break", ["C18"], MP, None, None, "workers joined without timeout in a finally clause: the error path waits for survivors nobody reads from", "MultiprocessingSolver", within="    def optimize(self",
+  edits=[{"old": """        while nb > 0:
+            proc_idx, solution, statistics = get_message(solutions, processes, finished)
+            self.statistics[proc_idx] = statistics
+            if solution is None:
+                finished[proc_idx] = True
+                nb -= 1
+            elif best_solution is None or comparison_func(solution[variable_idx], best_solution[variable_idx]):
+                best_solution = solution
+""", "new": """        try:
+            while nb > 0:
+                proc_idx, solution, statistics = get_message(solutions, processes, finished)
+                self.statistics[proc_idx] = statistics
+                if solution is None:
+                    finished[proc_idx] = True
+                    nb -= 1
+                elif best_solution is None or comparison_func(solution[variable_idx], best_solution[variable_idx]):
+                    best_solution = solution
+        finally:
+            for process in processes:
+                process.join()
+"""}])
+V("mp-join-after-loop-neutral", "neutral", ["C18", "C11"], MP, None, None, "workers joined after all markers were received (ordinary tidying up)", within="    def optimize(self",
+  edits=[{"old": "                best_solution = solution\n        return best_solution", "new": "                best_solution = solution\n        for process in processes:\n            process.join()\n        return best_solution"}])
+V("mp-finished-on-self", "break", ["C18", "C11"], MP, None, None, "completion flags kept on the object and never reset between calls", "MultiprocessingSolver",
+  edits=[{"old": "        finished = [False for _ in self.solvers]\n", "new": "", "all": True},
+         {"old": "finished)", "new": "self.finished)", "all": True},
+         {"old": "                finished[proc_idx] = True", "new": "                self.finished[proc_idx] = True", "all": True},
+         {"old": "        self.statistics = [None for _ in solvers]\n", "new": "        self.statistics = [None for _ in solvers]\n        self.finished = [False for _ in solvers]\n"}])
 V("mp-neutral-rename", "neutral", ["C11", "C18", "C17"], MP, None, None, "list renamed",
   edits=[{"old": "processes", "new": "procs", "all": True}])
 
@@ -391,6 +423,9 @@ V("init-offsets-other-vars", "break", ["C13"], PB,
 V("init-indices-uncached", "break", ["C13"], PB,
   "self.props_dom_indices[var_start:var_end] = self.dom_indices_arr[prop_vars]", "self.props_dom_indices[var_start:var_end] = prop_vars",
   "per-constraint cache holds variable indices instead of shared-domain indices", "init")
+V("init-trigger-vector-or", "break", ["C01", "C08", "C13"], PB,
+  "            for prop_var_idx, prop_var in enumerate(prop_vars):\n                self.triggers[self.dom_indices_arr[prop_var], propagator_idx] |= triggers[prop_var_idx]\n",
+  "            self.triggers[self.dom_indices_arr[prop_vars], propagator_idx] |= triggers\n", "wake-up table filled by one fancy-indexed |= (repeated index keeps the last write)", "init")
 V("init-neutral-or", "neutral", ["C01", "C08", "C13"], PB,
   "self.triggers[self.dom_indices_arr[prop_var], propagator_idx] |= triggers[prop_var_idx]",
   "self.triggers[self.dom_indices_arr[prop_var], propagator_idx] = self.triggers[self.dom_indices_arr[prop_var], propagator_idx] | triggers[prop_var_idx]", "|= written out")
@@ -439,6 +474,9 @@ V("flags-stack-wrong-extent", "break", ["C16"], BS,
   "self.not_entailed_propagators_stack = np.empty((stack_max_height, self.problem.shr_domain_nb), dtype=np.bool)", "flags stack sized by the number of domains", "__init__")
 
 # ------------------------------------------------------------------------------------------------ global state
+V("solver-init-skipped", "break", ["C15"], SV,
+  "            problem.init()\n", "            if getattr(problem, 'triggers', None) is None:\n                problem.init()\n",
+  "a problem that was initialised for an earlier solver is not re-initialised", "Solver.__init__")
 V("module-cache", "break", ["C15"], BS,
   "def get_function_addresses() -> Tuple[NDArray, NDArray, NDArray, NDArray]:", "_ADDRESS_CACHE: dict = {}\n\n\ndef get_function_addresses() -> Tuple[NDArray, NDArray, NDArray, NDArray]:\n    if 'a' in _ADDRESS_CACHE:\n        return _ADDRESS_CACHE['a']\n    _ADDRESS_CACHE['a'] = (np.empty(0), np.empty(0), np.empty(0), np.empty(0))",
   "module-level cache written by a function (registrations after the first call are invisible)", "get_function_addresses")
